@@ -171,10 +171,16 @@ class Serializable(object):  # pylint: disable=too-few-public-methods
                 else:
                     human_readable_name = ' '.join(name.split('_')).title()
             else:
+                has_own_post_text_encoder = 'post_text_encoder' in cls.__dict__
                 post_text_encoder = cls.post_text_encoder
                 cls.post_text_encoder = SerializableTextEncoder()
-                _, human_readable_name = cls._markdown_result(name)
-                cls.post_text_encoder = post_text_encoder
+                try:
+                    _, human_readable_name = cls._markdown_result(name)
+                finally:
+                    if has_own_post_text_encoder:
+                        cls.post_text_encoder = post_text_encoder
+                    else:
+                        del cls.post_text_encoder
 
             name_dict[name] = human_readable_name
 
